@@ -74,4 +74,55 @@ PROPS = {
         "assumptions": COMMON_ASSUME + ["ciinfo.IsCI is an arbitrary Boolean fixed at start-up"],
         "outside": [],
     },
+    "C12": {
+        "runs": [
+            {"harness": "H_C12_immutable", "quick": {"calls": 2}, "thorough": {"calls": 3}},
+        ],
+        "bounds": {"quick": "every subset of {Filename, Ext, Update, JSON} options; sequences of 1..2 of the five entry points through one shared Config",
+                   "thorough": "sequences of 1..3 entry points"},
+        "assumptions": COMMON_ASSUME,
+        "outside": ["concurrent use of one Config (schedules)"],
+    },
+    "C17": {
+        "runs": [
+            {"harness": "H_C17_matcher_errors", "quick": {"matchers": 2}, "thorough": {"matchers": 3}},
+        ],
+        "bounds": {"quick": "1..2 matchers, each an arbitrary implementation of the matcher interface returning 0..2 errors and rewriting or not; "
+                            "MatchJSON, MatchYAML, MatchStandaloneJSON; CI x Update option x UPDATE_SNAPS (<= 4 bytes) x entry missing/present",
+                   "thorough": "1..3 matchers"},
+        "assumptions": COMMON_ASSUME + ["matchers are quantified at the JSONMatcher/YAMLMatcher interface (arbitrary outputs and error lists)"],
+        "outside": ["which inputs make the real Any/Type/Custom matchers fail (gjson/sjson and goccy path engines)"],
+    },
+    "C18": {
+        "runs": [
+            {"harness": "H_C18_yaml", "reach": ["valid", "invalid"], "quick": {"n": 4}, "thorough": {"n": 6}},
+        ],
+        "bounds": {"quick": "documents: arbitrary bytes <= 4, and five part-concrete shapes (multi-document stream, block scalar with a --- line, comment, "
+                            "header-like flow sequence, trailing blank lines) with symbolic leaves; string and []byte input; final newline present/absent",
+                   "thorough": "arbitrary bytes <= 6"},
+        "assumptions": COMMON_ASSUME + ["goccy/go-yaml is an oracle: whether a document is valid is an arbitrary Boolean (both answers explored); "
+                                        "natively replayed counterexamples must agree with the real library",
+                                        "no CR at end of line (documented limitation)"],
+        "outside": ["Go values (reflection-based goccy encoder): marshal determinism is not decided", "YAML matchers"],
+    },
+    "C19": {
+        "runs": [
+            {"harness": "H_C19_standalone", "quick": {"n": 3, "calls": 2}, "thorough": {"n": 5, "calls": 3}},
+            {"harness": "H_C19_json", "quick": {"n": 2}, "thorough": {"n": 3}},
+        ],
+        "bounds": {"quick": "1..2 standalone calls with arbitrary byte values <= 3 (CR allowed), two executions; JSON templates with string leaves <= 2 bytes",
+                   "thorough": "values <= 5 bytes, 1..3 calls"},
+        "assumptions": COMMON_ASSUME,
+        "outside": ["test names containing % (the standalone path is used as a format string; see C11)"],
+    },
+    "C20": {
+        "runs": [
+            {"harness": "H_C20_outcome", "reach": ["failed", "added", "updated", "passed"], "quick": {"faults": 1}, "thorough": {"faults": 1}},
+            {"harness": "H_C20_summary"},
+        ],
+        "bounds": {"quick": "one call: CI x Update option x UPDATE_SNAPS (<= 4 bytes) x 5 entry points x entry state, every file-system operation may fail; "
+                            "summary: counters in {0,1,2,11}, 0..2 obsolete files and tests, both modes", "thorough": "same"},
+        "assumptions": COMMON_ASSUME + ["MatchSnapshot is called with at least one value"],
+        "outside": ["concurrent bumps of the counters (schedules)"],
+    },
 }
